@@ -1,23 +1,17 @@
+import NetaddrVerif.Model.Cidr
 
 namespace NV
 
--- Prototype: the backward merge sweep of cidr_merge on intervals sorted by (last, first) (core only)
-structure Iv where
-  first : Nat
-  last : Nat
-deriving Repr, DecidableEq
-
-def Iv.mem (r : Iv) (a : Nat) : Prop := r.first ≤ a ∧ a ≤ r.last
-def ivden (l : List Iv) (a : Nat) : Prop := ∃ r ∈ l, r.mem a
-
-/-- functional form of
-    `i = len-1; while i > 0: if r[i].first - 1 <= r[i-1].last: r[i-1] = (r[i].last, min(firsts)); del r[i]; i -= 1`
-    `revPrefix` is r[0..i-1] reversed, `cur` is r[i], `done` is r[i+1..]. -/
+/-! The backward merge sweep of cidr_merge (Model/Cidr.lean `sweep`) yields interval normal form. -/
+/-- spec-level single-family form of `mergeSweep` -/
 def sweep : List Iv → Iv → List Iv → List Iv
   | [], cur, done => cur :: done
   | p :: rest, cur, done =>
     if (cur.first : Int) - 1 ≤ p.last then sweep rest ⟨min p.first cur.first, cur.last⟩ done
     else sweep rest p (cur :: done)
+
+def Iv.mem (r : Iv) (a : Nat) : Prop := r.first ≤ a ∧ a ≤ r.last
+def ivden (l : List Iv) (a : Nat) : Prop := ∃ r ∈ l, r.mem a
 
 /-- normal form: valid intervals, ascending, neither overlapping nor adjacent -/
 def IvNorm : List Iv → Prop
